@@ -7,11 +7,15 @@ env=dict(os.environ,GOFLAGS='-mod=mod',GOPROXY='off',GOSUMDB='off',GOTOOLCHAIN='
 here=os.path.dirname(os.path.abspath(__file__))
 muts=json.load(open(os.path.join(here,'mutants.json')))
 args=[a for a in sys.argv[1:] if not a.startswith('--')]
+only=None
+for a in sys.argv[1:]:
+    if a.startswith('--only='): only=set(int(x) for x in a[7:].split(','))
 suite='--suite' in sys.argv
 tier='thorough' if '--thorough' in sys.argv else 'quick'
 res=[]
 for i,m in enumerate(muts):
     if args and m['prop'] not in args: continue
+    if only is not None and i not in only: continue
     S=tempfile.mkdtemp(prefix='vmut.',dir='/tmp')
     try:
         subprocess.check_call(['rsync','-a','--exclude','.git','--exclude','example-output','/repo/',S+'/'])
